@@ -88,13 +88,14 @@ type rtWorld struct {
 	used   map[string]time.Duration // TLS name -> last instant a round trip for it was started
 	active int
 	// handed: TLS name -> the transport last handed out for it and when
-	handed map[string]handedOut
+	handed map[string][]handedOut
 	alias  map[string]string
 }
 
 type handedOut struct {
 	id   string
-	at   time.Duration
+	at   time.Duration // the call started
+	end  time.Duration // the call returned
 	task string
 }
 
@@ -102,7 +103,7 @@ func bodyTransports(r *sim.Run) {
 	t := r.T
 	s := sim.NewSched(r)
 	z := newZone()
-	w := &rtWorld{r: r, s: s, z: z, tasks: map[string]*rtTask{}, used: map[string]time.Duration{}, handed: map[string]handedOut{}}
+	w := &rtWorld{r: r, s: s, z: z, tasks: map[string]*rtTask{}, used: map[string]time.Duration{}, handed: map[string][]handedOut{}}
 	w.n = newSimNet(r, z)
 	hosts := map[string][]string{
 		"t0.example": {"203.0.113.7"},
@@ -298,18 +299,22 @@ func (w *rtWorld) checkTransports(where string) {
 // getTransport asks the cache for the transport of one TLS name, as every
 // round trip does first. Sequentially, two such calls closer together than
 // the cache's lifetime are handed the same transport; so must concurrent ones.
+//
+// The cache stamps the transport at some instant between the start of the
+// call and its return (a task may sit parked at a lock boundary inside the
+// call, before or after the stamp, while the simulated clock advances), and
+// an entry is reaped only once its stamp is older than the lifetime. So two
+// calls were certainly not separated by a reap if everything from the earlier
+// start to the later return fits into one lifetime; only then are different
+// transports a violation.
 func (w *rtWorld) getTransport(ts *rtTask, i int, name string) {
 	r := w.r
 	w.mu.Lock()
 	w.used[name] = r.Now()
 	w.mu.Unlock()
-	// the cache stamps the transport somewhere between the start of the call
-	// and its return (the task may be parked at a lock boundary while the
-	// clock advances): an entry stamped no earlier than an earlier call's
-	// start cannot have been reaped before that start plus the lifetime
 	start := r.Now()
 	id := w.client.VerifGetTransport(name)
-	now := r.Now()
+	end := r.Now()
 	w.mu.Lock()
 	// addresses differ from process to process: name transports in order of appearance
 	if w.alias == nil {
@@ -319,13 +324,22 @@ func (w *rtWorld) getTransport(ts *rtTask, i int, name string) {
 		w.alias[id] = fmt.Sprintf("transport#%d", len(w.alias)+1)
 	}
 	id = w.alias[id]
-	prev, had := w.handed[name]
-	w.handed[name] = handedOut{id: id, at: start, task: ts.name}
+	earlier := append([]handedOut{}, w.handed[name]...)
+	w.handed[name] = append(w.handed[name], handedOut{id: id, at: start, end: end, task: ts.name})
 	w.mu.Unlock()
-	w.tlog(ts, "t=%v %s: get#%d transport for %q -> %s", now, ts.name, i, name, id)
+	w.tlog(ts, "t=%v %s: get#%d transport for %q (asked at %v) -> %s", end, ts.name, i, name, start, id)
 	r.Probe("transport_get_or_create")
-	if had && now-prev.at < tripperLifetime && prev.id != id {
-		r.Violate("C19", "transport_cache", "two_transports_for_one_name", "%s was handed transport %s for %q %v after %s had been handed %s: a sequential execution hands out one transport per name until it is reaped", ts.name, id, name, now-prev.at, prev.task, prev.id)
+	for _, prev := range earlier {
+		lo, hi := prev.at, prev.end
+		if start < lo {
+			lo = start
+		}
+		if end > hi {
+			hi = end
+		}
+		if prev.id != id && hi-lo < tripperLifetime {
+			r.Violate("C19", "transport_cache", "two_transports_for_one_name", "%s (asking from %v to %v) was handed %s for %q and %s (asking from %v to %v) was handed %s, all within %v: a sequential execution hands out one transport per name until it is reaped", ts.name, start, end, id, name, prev.task, prev.at, prev.end, prev.id, hi-lo)
+		}
 	}
 }
 
